@@ -3,8 +3,11 @@ package sandbox
 // Harness for property C10 (sandbox semantics). Injected by overlay from /verif.
 
 import (
+	"math/big"
+
 	"github.com/xuperchain/xupercore/kernel/contract"
 	"github.com/xuperchain/xupercore/kernel/ledger"
+	"github.com/xuperchain/xupercore/protos"
 	"github.com/xuperchain/xupercore/zzverif/vrt"
 )
 
@@ -276,3 +279,48 @@ func VerifC10Three()    { verifC10(3, false) } // three operations without the r
 // VerifC10Scan3: two reads / deletes, then a scan (runs of adjacent delete markers in the cache, the
 // read set and the merged view), with the re-run leg
 func VerifC10Scan3() { verifC10Shaped(3, true, [][]int{{0, 2}, {0, 2}, {3}}) }
+
+// VerifC10UtxoReplay: the reader that serves a re-run its token inputs from the recorded list
+// (NewUTXOReaderFromInput).  L recorded inputs with arbitrary amounts, up to 3 selections with arbitrary
+// amounts: every selection must return the shortest run of recorded inputs that covers the amount,
+// starting right behind the run the previous selection consumed - which is what the first run did.
+func VerifC10UtxoReplay() {
+	L := 1 + vrt.Choice("recorded-inputs", 5)
+	var rec []*protos.TxInput
+	amt := make([]int64, L)
+	for i := 0; i < L; i++ {
+		amt[i] = vrt.Int("amount", 1, 5)
+		rec = append(rec, &protos.TxInput{RefTxid: []byte{byte('a' + i)}, RefOffset: int32(i), FromAddr: []byte("CT"), Amount: big.NewInt(amt[i]).Bytes()})
+	}
+	r := NewUTXOReaderFromInput(rec)
+	next := 0 // oracle: index of the first recorded input not yet consumed
+	calls := 1 + vrt.Choice("selections", 3)
+	for c := 0; c < calls; c++ {
+		need := vrt.Int("need", 1, 9)
+		got, _, sum, err := r.SelectUtxo("CT", big.NewInt(need), true, false)
+		// oracle: shortest run from next covering need
+		var acc int64
+		n := 0
+		for next+n < L && acc < need {
+			acc += amt[next+n]
+			n++
+		}
+		if acc < need {
+			vrt.Assert(err != nil, "selection-beyond-the-recorded-inputs-fails")
+			return
+		}
+		vrt.Assert(err == nil, "covered-selection-succeeds")
+		if err != nil {
+			return
+		}
+		ok := len(got) == n && sum.Cmp(big.NewInt(acc)) == 0
+		if ok {
+			for i := range got {
+				ok = ok && got[i] == rec[next+i]
+			}
+		}
+		vrt.Assert(ok, "selection-is-the-next-run-of-recorded-inputs")
+		vrt.Cover("third-selection", c == 2)
+		next += n
+	}
+}
